@@ -16,9 +16,9 @@ func init() {
 	Registry["C03"] = runC03
 }
 
-const explanationC02 = "Decides structural necessary conditions of C02 (request side): (R02.1) the attribute-name⇄wire-name tables of a mapped attribute stay inverse of each other — every store into one is paired with the swapped store into the other, copies copy both, deletes delete from both, and each lookup direction reads its own table; (R02.2) the request body is the payload minus everything mapped elsewhere — headers, cookies, params, the map-query attribute and the implicit header attributes all reach removeAttribute(s) on the body; (R02.3) the string⇄typed conversion templates use the strconv family, bit size and cast of each primitive type; (R02.4) every transport accessor in the request/response templates is keyed by the element's wire-name field (HTTPName, or CanonicalName for headers; direct indexing of a header map only by CanonicalName) on the writing and on the reading side, never by the attribute or variable name; raw values are tested for presence on the raw variable they were read into; (R02.5) path values are unescaped exactly once (shared with C16/R16.2) and request decoding picks the codec of the announced type (shared with C15/R15.1); (R02.6) template range bodies use their element; required flags are propagated under the key they are looked up with. NOT decided: equality of the payload received with the payload sent for any design (needs execution of generated code), default injection, escaping of query values."
+const explanationC02 = "Decides structural necessary conditions of C02 (request side): (R02.1) the attribute-name⇄wire-name tables of a mapped attribute stay inverse of each other — every store into one is paired with the swapped store into the other, copies copy both, deletes delete from both, and each lookup direction reads its own table; (R02.2) the request body is the payload minus everything mapped elsewhere — headers, cookies, params, the map-query attribute and the implicit header attributes all reach removeAttribute(s) on the body; (R02.3) the string⇄typed conversion templates use the strconv family, bit size and cast of each primitive type; (R02.4) every transport accessor in the request/response templates is keyed by the element's wire-name field (HTTPName, or CanonicalName for headers; direct indexing of a header map only by CanonicalName) on the writing and on the reading side, never by the attribute or variable name; raw values are tested for presence on the raw variable they were read into; (R02.5) path values are unescaped exactly once (shared with C16/R16.2) and request decoding picks the codec of the announced type (shared with C15/R15.1); (R02.6) template range bodies use their element; required flags are propagated under the key they are looked up with; (R02.7) the request encoder guards a field only against nil, never against a zero value; (R02.8) loops over References apply Inherit and loops over Bases apply Merge in every implementation. NOT decided: equality of the payload received with the payload sent for any design (needs execution of generated code), default injection, escaping of query values."
 
-const explanationC03 = "Decides structural necessary conditions of C03 (response side): (R03.1) in the response encoder template each response arm writes the status code of its own range element after its headers and before the body, tagged arms compare the tag field with that element's tag value, and the client decoder's case labels come from the same field; the DSL gives a response its default status before the response DSL runs so that an explicit Code() is kept; (R03.2) errors captured by the attribute walkers of the transform generators are tested after each walk; (R03.3) the status vocabulary — every expr.Status* constant has the value of the like-named net/http constant; (R03.4) the response body is the result minus headers and cookies, wire accessors use wire-name fields on both sides (shared with R02.2/R02.4), conversion templates are inverse pairs (R02.3); (R03.5) tag-pointer decisions keep the viewed-result guard; no stale per-iteration state in the response data builder; the client response decoder picks the codec of the announced Content-Type (shared with C15/R15.1). NOT decided: equality of the result received with the result sent (needs execution), streaming order, default injection."
+const explanationC03 = "Decides structural necessary conditions of C03 (response side): (R03.1) in the response encoder template each response arm writes the status code of its own range element after its headers and before the body, tagged arms compare the tag field with that element's tag value, and the client decoder's case labels come from the same field; the DSL gives a response its default status before the response DSL runs so that an explicit Code() is kept; (R03.2) errors captured by the attribute walkers of the transform generators are tested after each walk; (R03.3) the status vocabulary — every expr.Status* constant has the value of the like-named net/http constant; (R03.4) the response body is the result minus headers and cookies, wire accessors use wire-name fields on both sides (shared with R02.2/R02.4), conversion templates are inverse pairs (R02.3); (R03.5) tag-pointer decisions keep the viewed-result guard; no stale per-iteration state in the response data builder; the client response decoder picks the codec of the announced Content-Type (shared with C15/R15.1); (R03.6) the response encoder guards a field only against nil, never against a zero value. NOT decided: equality of the result received with the result sent (needs execution), streaming order, default injection."
 
 func runC02(c *an.Ctx) string {
 	r021NameTables(c)
@@ -29,6 +29,8 @@ func runC02(c *an.Ctx) string {
 	r025RequestDecoder(c)
 	tplRangeIndexRule(c, "R02.6", "http/codegen/templates")
 	r078RequiredKeys(c, "R02.6", []string{"expr", "http/codegen"})
+	encoderNilGuards(c, "R02.7", "http/codegen/templates/request_encoder.go.tpl", "http/codegen/templates/request_builder.go.tpl")
+	r028RefsAndBases(c, "R02.8")
 	return explanationC02
 }
 
@@ -42,6 +44,7 @@ func runC03(c *an.Ctx) string {
 	r035ResponseData(c)
 	r15ResponseDecoder(c) // shared with C15 (rule id R15.1): the client picks the codec of the announced type
 	tplRangeIndexRule(c, "R03.5", "http/codegen/templates")
+	encoderNilGuards(c, "R03.6", "http/codegen/templates/response_encoder.go.tpl", "http/codegen/templates/partial/response.go.tpl")
 	return explanationC03
 }
 
@@ -608,4 +611,46 @@ func r035ResponseData(c *an.Ctx) {
 		}
 	}
 	r049MustValidate(c)
+}
+
+// r028RefsAndBases (R02.8): Reference(T) lets an attribute inherit the
+// properties of the like-named attributes of T it already defines (Inherit);
+// Extend(T) adds every attribute of T (Merge). Every loop over X.References
+// applies Inherit and every loop over X.Bases applies Merge: the two sibling
+// implementations (AttributeExpr.Finalize and the HTTP body builder) agree.
+// Merging a reference drags all of T's attributes and required list into the
+// body type.
+func r028RefsAndBases(c *an.Ctx, rule string) {
+	want := map[string]string{"References": "Inherit", "Bases": "Merge"}
+	n := 0
+	for _, f := range c.AllFuncs("expr") {
+		info := f.Pkg.TypesInfo
+		ast.Inspect(f.Decl.Body, func(nd ast.Node) bool {
+			rs, ok := nd.(*ast.RangeStmt)
+			if !ok {
+				return true
+			}
+			se, ok := an.Unparen(rs.X).(*ast.SelectorExpr)
+			if !ok || want[se.Sel.Name] == "" {
+				return true
+			}
+			ast.Inspect(rs.Body, func(m ast.Node) bool {
+				call, ok := m.(*ast.CallExpr)
+				if !ok {
+					return true
+				}
+				name := an.CalleeName(info, call)
+				if name != "(*"+an.P("expr")+".AttributeExpr).Merge" && name != "(*"+an.P("expr")+".AttributeExpr).Inherit" {
+					return true
+				}
+				n++
+				got := name[strings.LastIndex(name, ".")+1:]
+				c.Check(got == want[se.Sel.Name], rule, fmt.Sprintf("%s#range(%s)", f.Name, se.Sel.Name), call.Pos(),
+					se.Sel.Name+" are applied with "+want[se.Sel.Name], "the loop over "+se.Sel.Name+" applies "+got+" where every other implementation applies "+want[se.Sel.Name]+": a Reference would add all attributes and required fields of the referenced type (or an Extend would add none)")
+				return true
+			})
+			return true
+		})
+	}
+	c.Floor(rule, n, 4, "Merge/Inherit calls in loops over References and Bases")
 }
